@@ -25,21 +25,23 @@ Fixpoint erase (s : shp) (v : val O) {struct s} : val O :=
   end.
 Definition rerase (s : shp) (r : res (val O)) : res (val O) := match r with Ok v => Ok (erase s v) | e => e end.
 
-(* ---- lane-wise lifts *)
-Fixpoint lw2 (k : ik) (op : iop2) (a b : list Z) : res (list (val O)) :=
-  match a, b with
-  | x :: a', y :: b' => rb (i_2 O k op x y) (fun z => rb (lw2 k op a' b') (fun zs => Ok (VI k z :: zs)))
-  | [], [] => Ok []
-  | _, _ => Stuck "lw2" end.
-Definition lanewise2_i (k : ik) (op : iop2) (a b : list Z) : res (val O) := rb (lw2 k op a b) (fun l => Ok (VT l)).
+(* ---- sequencing of primitives that may panic *)
+Definition pb {B} (o : option Z) (k : Z -> res B) : res B := match o with Some z => k z | None => Panic end.
+Definition ob {B} (o : option Z) (k : Z -> option B) : option B := match o with Some z => k z | None => None end.
 End S.
 
-(* destruct the innermost stuck [match _ with Ok .. end] scrutinee *)
+(* destruct the innermost stuck scrutinee: an application of an abstract primitive returning [option]/[res]/[bool] *)
 Ltac step :=
   match goal with
-  | |- context[match ?x with Ok _ => _ | Panic => _ | UB _ => _ | OutOfFuel => _ | Stuck _ => _ end] =>
+  | |- context[match ?x with Some _ => _ | None => _ end] =>
       lazymatch x with
-      | context[match _ with Ok _ => _ | Panic => _ | UB _ => _ | OutOfFuel => _ | Stuck _ => _ end] => fail
-      | _ => destruct x end
+      | context[match _ with Some _ => _ | None => _ end] => fail
+      | context[if _ then _ else _] => fail
+      | _ => case x; [intro|] end
+  | |- context[if ?x then _ else _] =>
+      lazymatch x with
+      | context[match _ with Some _ => _ | None => _ end] => fail
+      | context[if _ then _ else _] => fail
+      | _ => case x end
   end.
 Ltac solve_struct := vm_compute; repeat (step; vm_compute); reflexivity.
